@@ -8,6 +8,7 @@ CONSTANTS
   LP = 3
   LQ = 1
   LR = 1
+  Ext = {}
 SPECIFICATION PathsSpec
 INVARIANT DesignSRaw
 INVARIANT DesignSSpell
